@@ -195,6 +195,11 @@ def entities(scn, vec, mods):
     M, V = gen.generic_classes(scn["enz"])
     gen.fresh(M)
     gen.fresh(V)
+    if scn.get("decor"):
+        # every participant annotated with features of every unusual but legal shape
+        v = V(gen.crec(vec, "vec", features=gen.decorations(len(vec))))
+        ms = [M(gen.crec(m, "mod%d" % i, features=gen.decorations(len(m)))) for i, m in enumerate(mods)]
+        return v, ms
     v = V(gen.crec(vec, "vec"))
     ms = [M(gen.crec(m, "mod%d" % i)) for i, m in enumerate(mods)]
     return v, ms
